@@ -235,7 +235,7 @@ pub fn continue_hpoint(dir: &Path, run: &Run, p: &HPoint, target: &Run, acked: b
 }
 
 /// Crash offsets enumerated for one op's byte range `(lo, hi]`.
-fn offsets(run: &Run, lo: usize, hi: usize, every_byte: bool) -> Vec<usize> {
+pub fn offsets(run: &Run, lo: usize, hi: usize, every_byte: bool) -> Vec<usize> {
     if every_byte {
         return (lo + 1..=hi).collect();
     }
